@@ -964,3 +964,22 @@ Qed.
 Lemma load_effect_isolated o o' b : lib_list o LImages = lib_list o' LImages ->
   load_effect_body o b = load_effect_body o' b.
 Proof. intro H. unfold load_effect_body. rewrite (load_params_images o o' H). reflexivity. Qed.
+
+(* ---------------------------------------------------------------- texture naming an image id *)
+
+Lemma bind_texture_implicit o sc name iu :
+  bind_texture o sc name = TImplicit iu -> find_sampler sc name = None /\ In (iu, name) (lib_list o LImages).
+Proof.
+  unfold bind_texture. destruct (find_sampler sc name); [discriminate|].
+  unfold lookup. destruct (spec_lookup (lib_list o LImages) name) as [v|] eqn:E; [|discriminate].
+  intro H. inversion H. subst. split; [reflexivity|apply spec_lookup_in; exact E].
+Qed.
+
+Lemma bind_texture_dropped o sc name :
+  find_sampler sc name = None -> (forall u, ~ In (u, name) (lib_list o LImages)) -> bind_texture o sc name = TDropped.
+Proof.
+  intros H1 H2. unfold bind_texture, lookup. rewrite H1, (proj2 (spec_lookup_none _ _) H2). reflexivity.
+Qed.
+
+Lemma bind_texture_sampler_first o sc name u : find_sampler sc name = Some u -> bind_texture o sc name = TSampler u.
+Proof. intro H. unfold bind_texture. rewrite H. reflexivity. Qed.
